@@ -119,7 +119,11 @@ func init() {
 	})
 	setIntrinsic(hpath+"vStepLimit", func(ex *Exec, fn *ssa.Function, a []Value) Value {
 		n := ex.concInt(a[0].(*Term))
-		ex.stepLimit = ex.steps + n
+		if n <= 0 {
+			ex.stepLimit = 0
+		} else {
+			ex.stepLimit = ex.steps + n
+		}
 		return nil
 	})
 	setIntrinsic(hpath+"vArith", func(ex *Exec, fn *ssa.Function, a []Value) Value {
@@ -137,6 +141,10 @@ func init() {
 	setIntrinsic(hpath+"vNot", func(ex *Exec, fn *ssa.Function, a []Value) Value { return Not(a[0].(*Term)) })
 	setIntrinsic(hpath+"vIte", func(ex *Exec, fn *ssa.Function, a []Value) Value {
 		return Ite(a[0].(*Term), a[1].(*Term), a[2].(*Term))
+	})
+	setIntrinsic(hpath+"vMapOrderFixed", func(ex *Exec, fn *ssa.Function, a []Value) Value {
+		ex.fixOrder = a[0].(*Term).Bool()
+		return nil
 	})
 	setIntrinsic(hpath+"vSymbolic", func(ex *Exec, fn *ssa.Function, a []Value) Value { return trueT })
 	setIntrinsic(hpath+"vTrace", func(ex *Exec, fn *ssa.Function, a []Value) Value {
